@@ -6,7 +6,7 @@
 #             arithmetic): code under cfg(not(debug_assertions)) and silent wrap-around only exist there
 #             -> "allfeat": the same, with every optional feature of nexrad-model switched on
 #             (chrono, uom, serde: no workspace member enables them, a downstream user may)
-#   C15, C17, C18, C19                 -> "farclock": the same workload with the process's wall clock
+#   every property but C20             -> "farclock": the same workload with the process's wall clock
 #             moved (LD_PRELOAD shim over clock_gettime/gettimeofday/time; monotonic clocks untouched)
 #   C02-C04, C07-C14                   -> "minfeat": the same, with nexrad-decode built *without*
 #             its default `uom` feature (only possible in a build that does not contain nexrad-data,
@@ -29,7 +29,8 @@ case "$TIER:$PROP" in
   thorough:C02|thorough:C04|thorough:C07|thorough:C10) lanes=(miri) ;;
 esac
 case "$PROP" in
-  C15|C17|C18|C19) lanes+=(farclock) ;;
+  C20) ;;
+  *) lanes+=(farclock) ;;
 esac
 case "$PROP" in
   C20) lanes=() ;;
@@ -158,7 +159,8 @@ for lane in "${lanes[@]}"; do
       esac
       OFF=$(( $(date -u -d "$WHEN" +%s) - $(date -u +%s) ))
       BIN="$ROOT/harness/target/release/nxverif"
-      DIV=4; [ "$TIER" = "thorough" ] && DIV=8
+      case "$PROP" in C15|C17|C18|C19) DIV=4 ;; *) DIV=8 ;; esac
+      [ "$TIER" = "thorough" ] && DIV=$((DIV*2))
       CMD="LD_PRELOAD=lanes/clock/nxclock.so VERIF_CLOCK_OFFSET_S=$OFF VERIF_CASES_DIV=$DIV $BIN $PROP $TIER   # wall clock starts at $WHEN UTC"
       LD_PRELOAD="$SO" VERIF_CLOCK_OFFSET_S=$OFF VERIF_CASES_DIV=$DIV VERIF_EVIDENCE_DIR="$OUT/farclock-evidence" VERIF_REPLAY_DIR="$OUT" "$BIN" "$PROP" "$TIER" > "$LOG" 2>&1
       LRC=$?
